@@ -26,14 +26,16 @@ EffBase(leaf, kind, base) == IF leaf = "umask" /\ base = 0 THEN 2 ELSE base
 
 (* the effective value of one overridable leaf for a format whose override *)
 (* block sets it to ov (ovstate = "set" / "empty") or does not mention it   *)
-(* ("noleaf") or that has no block at all ("noblock")                      *)
+(* ("noleaf") or that has no block at all ("noblock"), or an empty one:    *)
+(* `f:` with nothing below it ("nullblock"), `f: {}` ("emptyblock")        *)
+NoOverride == {"noblock", "noleaf", "nullblock", "emptyblock"}
 Effective(leaf, kind, base, ov, ovstate) ==
   LET b == EffBase(leaf, kind, base) IN
-  IF ovstate \in {"noblock", "noleaf"} THEN b
+  IF ovstate \in NoOverride THEN b
   ELSE IF IsEmptyVal(kind, ov) THEN b ELSE ov
 
 EffectiveMap(base, ov, ovstate) ==
-  IF ovstate \in {"noblock", "noleaf"} THEN MapSet(base) ELSE MapMerge(base, ov)
+  IF ovstate \in NoOverride THEN MapSet(base) ELSE MapMerge(base, ov)
 
 (* content entries "dst|tag": those addressed to f or to everyone *)
 TagOf(s) == LET i == LastIndexOf(s, "|", Len(s)) IN SubSeq(s, i + 1, Len(s))
